@@ -1,4 +1,5 @@
-LEVEL = "proof"
+from .common import frame_unit, GATE_FILES
+LEVEL = "other"
 EXPLANATION = (
     "Contract: for every gate class of lightworks.qubit (14 single-qubit, CZ, CNOT x2 targets, CZ_Heralded, CNOT_Heralded x2, "
     "CCZ, CCNOT x3, SWAP) and every real rotation angle, the heralded dual-rail amplitude matrix computed with the spec permanent "
@@ -6,8 +7,12 @@ EXPLANATION = (
     "have zero amplitude outside the qubit subspace. Mechanism xlift: the REAL constructors (Unitary, herald, Circuit.add, compile) are "
     "executed by CPython over the exact field Q(i)[sqrt2, 2^(1/4), sqrt3, sqrt7, cos(theta/2), sin(theta/2), ...]; identities are decided "
     "by normal form (z3-nlsat confirms any non-zero form). The discrete domain (class x target_qubit) is finite and fully enumerated and "
-    "theta is symbolic, so each obligation holds for all inputs of the contract: a complete proof, not a sample. SWAP on arbitrary mode "
-    "pairs: quick tier checks every 7th of the 120 placements of 4 distinct modes out of 5, thorough all 120 (labelled bounded in mode count)."
+    "theta is symbolic, so each of these obligations holds for all inputs of the contract: a complete proof, not a sample (23 of the 24 gate "
+    "variants; 93 identities incl. SWAP cases). NOT proved, bounded: SWAP on arbitrary mode pairs - quick tier checks every 7th of the 120 "
+    "placements of 4 distinct modes out of 5, thorough all 120 (the infinite family of mode pairs is why the level is 'other', not 'proof'; the "
+    "permutation matrix of any complete swap dictionary is proved for all sizes by the pyvc contract of permutation_mat_from_swaps_dict, C01). "
+    "Frame obligation: no function of the gate modules writes module- or class-level mutable state (so a gate does not depend on which gates were "
+    "built before); cross-checked natively on 72 constructions in sequence."
 )
 ASSUMPTIONS = ["A1: IEEE doubles are treated as exact reals by the lifting (float literals become exact rationals)",
                "trig: cos/sin atoms with c^2+s^2=1 per distinct angle; exp(i x) = cos x + i sin x; values at rational multiples of pi from the exact table"]
@@ -16,5 +21,8 @@ TRUSTED = ["CPython executing the lifted modules", "vf/xlift/field.py exact fiel
 
 
 def units(tier):
-    return [dict(kind="xlift", mechanism="xlift (B: real code over exact reals, finite discrete domain complete)", name="xlift:gate-library",
+    u = [dict(kind="xlift", mechanism="xlift (B: real code over exact reals, finite discrete domain complete)", name="xlift:gate-library",
                  module="vf.tasks.t_gates", func="unit")]
+    u.append(frame_unit("gate-library", GATE_FILES))
+    u.append(dict(kind="func", mechanism="bounded runtime contract (C), native", name="bounded:gate-sequences", module="vf.tasks.t_gates", func="unit_sequences"))
+    return u
